@@ -813,6 +813,11 @@ impl ProtoMachine {
                 }
                 return b;
             }
+            Op::StorageFault => {
+                // the protocol world has its own persister: not injected here
+                so.kind = "storage-fault";
+                so.tag = "skip";
+            }
             Op::Restart => {
                 so.kind = "restart";
                 let r = self.w.restart();
